@@ -299,10 +299,19 @@ func (s *Subscription) ReleaseRPCResources() {
 		return
 	}
 	s.state = stateSent
+	pending := false
 	for _, sc := range s.refs {
+		// A reference still loading for an event is sent with that event
+		if sc.pending {
+			pending = true
+			continue
+		}
 		sc.sub.ReleaseRPCResources()
 	}
-	s.unqueueEvents(queueReasonLoading)
+	// Keep queueing if an event is waiting for a reference to load
+	if !pending {
+		s.unqueueEvents(queueReasonLoading)
+	}
 }
 
 func (s *Subscription) queueEvents(reason uint8) {
@@ -383,9 +392,11 @@ func (s *Subscription) populateResources(r *rpc.Resources, indirect bool) {
 	s.state = stateToSend
 
 	for _, sc := range s.refs {
+		// A reference still loading for an event is sent with that event
+		if sc.pending {
+			continue
+		}
 		sc.sub.populateResources(r, true)
-		// A reference still loading for an event is hereby counted
-		sc.pending = false
 	}
 }
 
@@ -431,9 +442,11 @@ func (s *Subscription) populateResourcesLegacy(r *rpc.Resources, indirect bool) 
 	s.state = stateToSend
 
 	for _, sc := range s.refs {
+		// A reference still loading for an event is sent with that event
+		if sc.pending {
+			continue
+		}
 		sc.sub.populateResourcesLegacy(r, true)
-		// A reference still loading for an event is hereby counted
-		sc.pending = false
 	}
 }
 
@@ -661,9 +674,7 @@ func (s *Subscription) processCollectionEvent(event *rescache.ResourceEvent) {
 				}
 
 				verifSub("sub.event", s)
-				// Count the reference as sent, unless it already was counted
-				// when this subscription was sent again while loading.
-				r := sub.GetRPCResources(ref.pending)
+				r := sub.GetRPCResources(true)
 				ref.pending = false
 				s.c.Send(rpc.NewEvent(s.rid, event.Event, rpc.AddEvent{Idx: idx, Value: v.RawMessage, Resources: r}))
 				sub.ReleaseRPCResources()
@@ -782,17 +793,15 @@ func (s *Subscription) processModelEvent(event *rescache.ResourceEvent) {
 				verifSub("sub.event", s)
 				r := &rpc.Resources{}
 
-				// Count the references as sent, unless they already were
-				// counted when this subscription was sent again while loading.
 				// Legacy behavior
 				if s.c.ProtocolVersion() < versionSoftResourceReferenceAndDataValue {
 					for _, sub := range subs {
-						sub.populateResourcesLegacy(r, s.refs[sub.rid].pending)
+						sub.populateResourcesLegacy(r, true)
 					}
 					s.c.Send(rpc.NewEvent(s.rid, event.Event, rpc.ChangeEvent{Values: rescache.Legacy120ValueMap(event.Changed), Resources: r}))
 				} else {
 					for _, sub := range subs {
-						sub.populateResources(r, s.refs[sub.rid].pending)
+						sub.populateResources(r, true)
 					}
 					s.c.Send(rpc.NewEvent(s.rid, event.Event, rpc.ChangeEvent{Values: event.Changed, Resources: r}))
 				}
